@@ -23,6 +23,7 @@ type result struct {
 	Pushes          int64          `json:"pushes"`
 	Pops            int64          `json:"pops"`
 	OneElementRaces int            `json:"one_element_races"`
+	OrderedDrains   int            `json:"extra_evaluations"`
 	Failures        []string       `json:"failures"`
 	FailureKinds    map[string]int `json:"failure_kinds"`
 	Samples         []any          `json:"samples"`
@@ -199,6 +200,92 @@ func roundA(rng *rand.Rand, sample bool) {
 	}
 }
 
+// round C: pushers only (several, so that ids reach the heap out of order), then a quiescent stack: Values() is in
+// id order, a sequential drain returns the values in id order (Pop = smallest remaining id), and with several
+// poppers draining a stack nobody pushes to, each popper's own sequence has increasing ids
+func roundC(rng *rand.Rand) {
+	P, n := 2+rng.Intn(6), 5+rng.Intn(80)
+	s := storage.NewGenericStack[int](rng.Intn(4))
+	idOf := make(map[int]uint64)
+	var mu2 sync.Mutex
+	var wg sync.WaitGroup
+	start := make(chan struct{})
+	for p := 0; p < P; p++ {
+		wg.Add(1)
+		go func(p int) {
+			defer wg.Done()
+			defer guard("Push")
+			<-start
+			for i := 0; i < n; i++ {
+				v := (p+1)*1000000 + i + 1
+				id := s.Push(v)
+				mu2.Lock()
+				idOf[v] = id
+				mu2.Unlock()
+			}
+		}(p)
+	}
+	close(start)
+	wg.Wait()
+	vals := s.Values()
+	if len(vals) != P*n || s.Len() != P*n {
+		fail("monitor", fmt.Sprintf("after %d pushes Len()=%d len(Values())=%d", P*n, s.Len(), len(vals)))
+	}
+	for i := 1; i < len(vals); i++ {
+		if idOf[vals[i-1]] >= idOf[vals[i]] {
+			fail("monitor", fmt.Sprintf("Values() not in id order: id %d before id %d", idOf[vals[i-1]], idOf[vals[i]]))
+			break
+		}
+	}
+	if rng.Intn(2) == 0 {
+		last := uint64(0)
+		for i := 0; i < P*n; i++ {
+			var v int
+			func() { defer guard("Pop"); v = s.Pop() }()
+			id := idOf[v]
+			if v == 0 || id <= last {
+				fail("monitor", fmt.Sprintf("sequential drain after concurrent pushes: Pop returned id %d after id %d (not the smallest remaining id)", id, last))
+				break
+			}
+			last = id
+		}
+	} else {
+		Q := 2 + rng.Intn(4)
+		var wg2 sync.WaitGroup
+		var total atomic.Int64
+		for q := 0; q < Q; q++ {
+			wg2.Add(1)
+			go func() {
+				defer wg2.Done()
+				last := uint64(0)
+				for {
+					var v int
+					func() { defer guard("Pop"); v = s.Pop() }()
+					if v == 0 {
+						return
+					}
+					total.Add(1)
+					mu2.Lock()
+					id := idOf[v]
+					mu2.Unlock()
+					if id <= last {
+						fail("monitor", fmt.Sprintf("concurrent drain of a stack nobody pushes to: one popper got id %d after id %d", id, last))
+						return
+					}
+					last = id
+				}
+			}()
+		}
+		wg2.Wait()
+		if int(total.Load()) != P*n {
+			fail("monitor", fmt.Sprintf("drain returned %d values, %d were pushed", total.Load(), P*n))
+		}
+	}
+	atomic.AddInt64(&res.Pushes, int64(P*n))
+	atomic.AddInt64(&res.Pops, int64(P*n))
+	res.OrderedDrains++
+}
+
 // round B: one element, k poppers released together (the schedule of Findings/GStack.v)
 func roundB(trials, k int) {
 	for t := 0; t < trials; t++ {
@@ -248,9 +335,12 @@ func main() {
 		roundA(rng, i < 3)
 		res.Rounds++
 	}
+	for i := 0; i < 5*rounds; i++ {
+		roundC(rng)
+	}
 	roundB(trials, 2)
 	roundB(trials/4, 4)
-	res.Scope = fmt.Sprintf("%d mixed rounds (1-6 pushers x 20-220 values, 1-6 poppers, a Peek/Len/Values reader) + %d two-popper and %d four-popper races on a one-element stack, under the race detector", rounds, trials, trials/4)
+	res.Scope = fmt.Sprintf("%d mixed rounds (1-6 pushers x 20-220 values, 1-6 poppers, three Peek/Len/Values readers) + %d push-only rounds (2-7 concurrent pushers) followed by an id-order check of Values() and of a sequential or multi-popper drain + %d two-popper and %d four-popper races on a one-element stack, under the race detector", rounds, 5*rounds, trials, trials/4)
 	os.MkdirAll(*out, 0o755)
 	js, _ := json.MarshalIndent(res, "", " ")
 	os.WriteFile(filepath.Join(*out, "result.json"), js, 0o644)
